@@ -21,7 +21,7 @@ def _bounded(tier):
 PROP = Prop(
     'C14',
     contracts=[REGISTRY[f] for f in FUNCS],
-    claims=['*::C14.*', T + '.match_base::*', '*find_handler*::raises_only'],
+    claims=['*::C14.*', '*::ensures.C14.*', '*::exc_ensures.C14.*', T + '.match_base::*', '*find_handler*::raises_only'],
     native_default=native_c14.native_for,
     bounded=[_bounded],
     not_decided=['find_handler is proved per handler-list length 0..4 (complete unrolling), not for unbounded length',
